@@ -309,6 +309,112 @@ def _tail_pass(fn) -> bool:
     return changed
 
 
+def append_loops_to_comprehensions(fn) -> bool:
+    """`x = []` directly followed by `for v in IT: x.append(E)` is `x = [E for v in IT]` (used by rules that read a
+    comprehension's shape; the summariser treats both alike anyway)."""
+    changed = False
+    for owner, field, lst in list(_stmt_lists(fn)):
+        new, i = [], 0
+        while i < len(lst):
+            st = lst[i]
+            nxt = lst[i + 1] if i + 1 < len(lst) else None
+            if (isinstance(st, ast.Assign) and len(st.targets) == 1 and isinstance(st.targets[0], ast.Name) and isinstance(st.value, ast.List) and not st.value.elts
+                    and isinstance(nxt, ast.For) and not nxt.orelse and len(nxt.body) == 1 and isinstance(nxt.body[0], ast.Expr) and isinstance(nxt.body[0].value, ast.Call)
+                    and isinstance(nxt.body[0].value.func, ast.Attribute) and nxt.body[0].value.func.attr == "append" and isinstance(nxt.body[0].value.func.value, ast.Name)
+                    and nxt.body[0].value.func.value.id == st.targets[0].id and len(nxt.body[0].value.args) == 1 and not nxt.body[0].value.keywords
+                    and not any(isinstance(x, ast.Name) and x.id == st.targets[0].id for x in ast.walk(nxt.body[0].value.args[0])) and not any(isinstance(x, ast.Name) and x.id == st.targets[0].id for x in ast.walk(nxt.iter))):
+                comp = ast.ListComp(elt=nxt.body[0].value.args[0], generators=[ast.comprehension(target=nxt.target, iter=nxt.iter, ifs=[], is_async=0)])
+                node = ast.copy_location(ast.Assign(targets=st.targets, value=ast.copy_location(comp, nxt)), st)
+                ast.fix_missing_locations(node)
+                new.append(node)
+                i += 2
+                changed = True
+                continue
+            new.append(st)
+            i += 1
+        setattr(owner, field, new)
+    return changed
+
+
+def _while_true_pass(fn) -> bool:
+    """`while True: if C: break; REST` (no other break of that loop, no else) is `while not C: REST`."""
+    changed = False
+
+    def breaks_of(loop):
+        out = []
+
+        def rec(n, depth):
+            for ch in ast.iter_child_nodes(n):
+                if isinstance(ch, (ast.FunctionDef, ast.AsyncFunctionDef, ast.Lambda, ast.ClassDef)):
+                    continue
+                if isinstance(ch, (ast.While, ast.For)):
+                    rec_body = [x for x in ch.orelse]  # a break in the else clause of an inner loop belongs to the outer one
+                    for x in rec_body:
+                        rec(x, depth)
+                    continue
+                if isinstance(ch, ast.Break):
+                    out.append(ch)
+                rec(ch, depth)
+
+        for st in loop.body:
+            if isinstance(st, ast.Break):
+                out.append(st)
+            rec(st, 0)
+        return out
+
+    for n in list(ast.walk(fn)):
+        if isinstance(n, ast.While) and isinstance(n.test, ast.Constant) and n.test.value is True and not n.orelse and n.body:
+            first = n.body[0]
+            if isinstance(first, ast.If) and not first.orelse and len(first.body) == 1 and isinstance(first.body[0], ast.Break) and len(breaks_of(n)) == 1:
+                n.test = ast.copy_location(ast.UnaryOp(op=ast.Not(), operand=first.test), first.test)
+                n.body = n.body[1:] or [ast.copy_location(ast.Pass(), first)]
+                ast.fix_missing_locations(n)
+                changed = True
+    return changed
+
+
+def _unroll_pass(fn) -> bool:
+    """`for v in ("a", "b"): body` over a literal display of constants (at most 8) without break/continue is the body once
+    per constant, in order."""
+    changed = False
+
+    class Sub(ast.NodeTransformer):
+        def __init__(self, name, value):
+            self.name, self.value = name, value
+
+        def visit_Name(self, node):
+            if node.id == self.name and isinstance(node.ctx, ast.Load):
+                return ast.copy_location(ast.Constant(value=self.value), node)
+            return node
+
+    for owner, field, lst in list(_stmt_lists(fn)):
+        new = []
+        for st in lst:
+            if (isinstance(st, ast.For) and not st.orelse and isinstance(st.target, ast.Name) and isinstance(st.iter, (ast.Tuple, ast.List)) and 1 <= len(st.iter.elts) <= 8
+                    and all(isinstance(e, ast.Constant) for e in st.iter.elts)
+                    and not any(isinstance(x, (ast.Break, ast.Continue)) for b in st.body for x in ast.walk(b))
+                    and not any(isinstance(x, ast.Name) and x.id == st.target.id and isinstance(x.ctx, (ast.Store, ast.Del)) for b in st.body for x in ast.walk(b))):
+                later_use = False  # the loop variable keeps its last value; unrolling is only exact if nobody reads it afterwards
+                seen = False
+                for other in lst:
+                    if other is st:
+                        seen = True
+                        continue
+                    if seen and any(isinstance(x, ast.Name) and x.id == st.target.id for x in ast.walk(other)):
+                        later_use = True
+                if later_use:
+                    new.append(st)
+                    continue
+                for e in st.iter.elts:
+                    for b in st.body:
+                        new.append(Sub(st.target.id, e.value).visit(inline._copy_node(b)))
+                changed = True
+            else:
+                new.append(st)
+        setattr(owner, field, new)
+    return changed
+
+
 def normalise(repo, finfo, keep=(), helpers=True, aliases=True, comps=True, ifexp=True):
     """(normalised function node, [inlined helper FuncInfo])."""
     used = []
@@ -319,6 +425,8 @@ def normalise(repo, finfo, keep=(), helpers=True, aliases=True, comps=True, ifex
         fn = inline._copy_node(fn)
     _allany_pass(fn)
     _redundant_guard_pass(fn)
+    _unroll_pass(fn)
+    _while_true_pass(fn)
     for _ in range(4):
         changed = False
         if comps:
